@@ -60,6 +60,7 @@ type Ctx struct {
 	Shard      int
 	NShards    int
 	Only       int64 // >= 0: replay exactly this case index
+	Upto       int64 // >= 0: history replay - this shard's cases up to and including this index
 	Config     string
 	out        string
 	idx        int64
@@ -76,7 +77,7 @@ type Ctx struct {
 
 // Start reads the worker environment.
 func Start() *Ctx {
-	c := &Ctx{Only: -1, keys: map[uint64]bool{}, start: time.Now(), maxViol: 20, Params: map[string]string{}}
+	c := &Ctx{Only: -1, Upto: -1, keys: map[uint64]bool{}, start: time.Now(), maxViol: 20, Params: map[string]string{}}
 	c.Job = os.Getenv("VERIF_JOB")
 	c.Tier = os.Getenv("VERIF_TIER")
 	if c.Tier == "" {
@@ -95,6 +96,9 @@ func Start() *Ctx {
 			c.Shard, _ = strconv.Atoi(p[0])
 			c.NShards, _ = strconv.Atoi(p[1])
 		}
+	}
+	if s := os.Getenv("VERIF_UPTO"); s != "" {
+		c.Upto, _ = strconv.ParseInt(s, 10, 64)
 	}
 	if s := os.Getenv("VERIF_ONLY"); s != "" {
 		c.Only, _ = strconv.ParseInt(s, 10, 64)
@@ -165,6 +169,8 @@ func (c *Ctx) Take() bool {
 			return false
 		}
 	} else if int(i%int64(c.NShards)) != c.Shard {
+		return false
+	} else if c.Upto >= 0 && i > c.Upto {
 		return false
 	}
 	if !c.deadline.IsZero() && i%64 == 0 && time.Now().After(c.deadline) {
@@ -379,6 +385,7 @@ func Main() (ran bool, err error) {
 func panicSite(stack string) (string, bool) {
 	lines := strings.Split(stack, "\n")
 	seenPanic := false
+	first := ""
 	for i := 0; i+1 < len(lines); i++ {
 		ln := lines[i]
 		if strings.HasPrefix(ln, "panic(") {
@@ -395,8 +402,22 @@ func panicSite(stack string) (string, bool) {
 		if j := strings.Index(loc, " +0x"); j >= 0 {
 			loc = loc[:j]
 		}
-		harness := strings.Contains(loc, "zz_verif") || strings.Contains(loc, "zzverif") || strings.Contains(loc, "/verif/") || !strings.Contains(ln, "oasisprotocol/ed25519")
+		if !strings.Contains(ln, "oasisprotocol/ed25519") {
+			// a frame of the standard library or of a dependency: whoever called it is responsible
+			// (a library function handing an unchecked argument to crypto.Hash.Size, say)
+			if first == "" {
+				first = loc
+			}
+			continue
+		}
+		harness := strings.Contains(loc, "zz_verif") || strings.Contains(loc, "zzverif") || strings.Contains(loc, "/verif/")
+		if first != "" {
+			loc = loc + " (raised in " + first + ")"
+		}
 		return loc, !harness
+	}
+	if first != "" {
+		return first, false
 	}
 	return "unknown", false
 }
